@@ -33,4 +33,33 @@ let () =
               else "coin:" ^ hex_of_z (flipN_sum grp.gq (List.map (function Some v -> v | None -> Z0) shares)) in
       (m, out)
     | _ -> failwith "arity");
+  (* a party's view of the members of Qual -> its coin.  member = idx|cm,cm,..|a or none|hata or none|ownA,ownB|k:A:B,k:A:B,.. (or _) *)
+  register "flipN_view" (function [p; q; g; h; t; i; members; out] ->
+      let grp = { gp = z_of_hex p; gq = z_of_hex q; gg = z_of_hex g; gh = z_of_hex h } in
+      let pair s = match String.split_on_char ',' s with [a; b] -> (z_of_hex a, z_of_hex b) | _ -> failwith "pair" in
+      let mb s = match String.split_on_char '|' s with
+        | [idx; cm; a; b; own; shs] ->
+          let cml = List.map z_of_hex (String.split_on_char ',' cm) in
+          { m_idx = z_of_hex idx; m_cm = cml;
+            m_open = { o_C = List.hd cml; o_a = opt_z a; o_hata = opt_z b };
+            m_own = pair own;
+            m_shares = (if shs = "_" then [] else List.map (fun e -> match String.split_on_char ':' e with
+                          | [k; a; b] -> (z_of_hex k, (z_of_hex a, z_of_hex b)) | _ -> failwith "share") (String.split_on_char ',' shs)) }
+        | _ -> failwith "member" in
+      let r = flipN_party grp (z_of_hex t) (z_of_hex i) (List.map mb (String.split_on_char ';' members)) in
+      ((match r with Some c -> "coin:" ^ hex_of_z c | None -> "fail"), out)
+    | _ -> failwith "arity");
+  (* RVSS::Share at party i for dealer d: cm, received share, number of complaints, the dealer's answers -> qualified?, final share *)
+  register "rvss_dealer" (function [p; q; g; h; t; i; cm; recv; nc; answers; out] ->
+      let grp = { gp = z_of_hex p; gq = z_of_hex q; gg = z_of_hex g; gh = z_of_hex h } in
+      let pair s = match String.split_on_char ',' s with [a; b] -> (z_of_hex a, z_of_hex b) | _ -> failwith "pair" in
+      let d = { d_cm = List.map z_of_hex (String.split_on_char ',' cm);
+                d_recv = (if recv = "none" then None else Some (pair recv));
+                d_ncompl = z_of_hex nc;
+                d_answers = (if answers = "_" then [] else List.map (fun e -> match String.split_on_char ':' e with
+                               | [k; a; b] -> (z_of_hex k, (z_of_hex a, z_of_hex b)) | _ -> failwith "answer") (String.split_on_char ',' answers)) } in
+      let ql = dealer_qualified grp (z_of_hex t) d in
+      let fs = match final_share grp (z_of_hex i) d with Some (a, b) -> hex_of_z a ^ "," ^ hex_of_z b | None -> "none" in
+      ((if ql then "qual:" ^ fs else "disqualified"), out)
+    | _ -> failwith "arity");
   main ()
